@@ -936,6 +936,7 @@ class Env:
         self.decl = {}            # name -> Decl  (declared inputs, in order)
         self.vars = {}            # z3 var name -> z3 var
         self.atoms = {}           # key -> z3 terms
+        self._funs = []
         self.defs = []            # definitional atoms in creation order: (kind, names, arg terms)
         self.axioms = []          # (z3 bool)
         self.assumptions = []     # (label, z3 bool) in sym mode
@@ -1144,7 +1145,7 @@ class Env:
                 return self.sqrt_rational(const_val(x.re))
             raise HarnessError("sqrt of a complex constant")
         if not x.is_real():
-            raise HarnessError("sqrt of a symbolic complex number is not modelled")
+            return self.csqrt(x)
         key = ("gsqrt", x.re.sexpr())
         a = self.atoms.get(key)
         if a is None:
@@ -1333,10 +1334,75 @@ class Env:
                 out_c.inv = SC(self.sech_atom(sym))
         return out_c, SC(s)
 
+    def _fun_atom(self, kind, arg, make):
+        """atom for an uninterpreted real function of a (non-affine) term, memoised by the term,
+        with congruence axioms  arg_i == arg_j -> f_i == f_j  against earlier atoms of the kind."""
+        key = ("fun", kind, z3.simplify(arg).sexpr())
+        a = self.atoms.get(key)
+        if a is None:
+            a = make()
+            self.atoms[key] = a
+            for (k2, a2, arg2) in self._funs:
+                if k2 == kind:
+                    outs = a if isinstance(a, tuple) else (a,)
+                    outs2 = a2 if isinstance(a2, tuple) else (a2,)
+                    self.axioms.append(z3.Implies(arg == arg2, z3.And([u == v for u, v in zip(outs, outs2)])))
+            self._funs.append((kind, a, arg))
+        return a
+
+    def _gexp(self, x):
+        out = SC(ONE)
+        if not (is_const(x.im) and const_val(x.im) == 0):
+            def mk():
+                c, s = self.fresh("gcos"), self.fresh("gsin")
+                self.axioms.append(c * c + s * s == 1)
+                self.defs.append(("gtrig", (c.decl().name(), s.decl().name()), (x.im,)))
+                return (c, s)
+            c, s = self._fun_atom("trig", x.im, mk)
+            out = SC(c, s, None, SC(c, -s))
+        if not (is_const(x.re) and const_val(x.re) == 0):
+            def mk2():
+                e, ie = self.fresh("gexp"), self.fresh("gexpinv")
+                self.axioms.append(e > 0)
+                self.axioms.append(e * ie == 1)
+                self.defs.append(("gexp", (e.decl().name(), ie.decl().name()), (x.re,)))
+                return (e, ie)
+            e, ie = self._fun_atom("exp", x.re, mk2)
+            out = SC(e, ZERO, None, SC(ie)) * out
+        return out
+
+    def csqrt(self, x):
+        """principal square root of a symbolic complex number"""
+        def mk():
+            yr, yi = self.fresh("csqrtr"), self.fresh("csqrti")
+            self.axioms.append(yr * yr - yi * yi == x.re)
+            self.axioms.append(2 * yr * yi == x.im)
+            self.axioms.append(yr >= 0)
+            self.axioms.append(z3.Implies(yr == 0, yi >= 0))
+            self.defs.append(("csqrt", (yr.decl().name(), yi.decl().name()), (x.re, x.im)))
+            return (yr, yi)
+        yr, yi = self._fun_atom2("csqrt", (x.re, x.im), mk)
+        return SC(yr, yi)
+
+    def _fun_atom2(self, kind, args, make):
+        key = ("fun", kind) + tuple(z3.simplify(a).sexpr() for a in args)
+        a = self.atoms.get(key)
+        if a is None:
+            a = make()
+            self.atoms[key] = a
+            for (k2, a2, args2) in self._funs:
+                if k2 == kind:
+                    self.axioms.append(z3.Implies(z3.And([u == v for u, v in zip(args, args2)]),
+                                                  z3.And([u == v for u, v in zip(a, a2)])))
+            self._funs.append((kind, a, args))
+        return a
+
     def exp(self, x):
         x = SC.lift(x)
         if x.is_const() and x.const() == 0:
             return SC(ONE)
+        if x.lin is None and not x.is_const():
+            return self._gexp(x)
         re, im = self._lin_of(x, "exp")
         out = SC(ONE)
         if not im.is_zero():
@@ -1645,6 +1711,16 @@ def complete_valuation(env, val):
             val[names[0]] = abs(a[0])
         elif kind == "recip":
             val[names[0]] = 1.0 / a[0] if a[0] != 0 else float("inf")
+        elif kind == "gtrig":
+            val[names[0]] = math.cos(a[0])
+            val[names[1]] = math.sin(a[0])
+        elif kind == "gexp":
+            val[names[0]] = math.exp(a[0])
+            val[names[1]] = math.exp(-a[0])
+        elif kind == "csqrt":
+            y = cmath.sqrt(complex(a[0], a[1]))
+            val[names[0]] = y.real
+            val[names[1]] = y.imag
         elif kind == "crecip":
             n = a[0] * a[0] + a[1] * a[1]
             val[names[0]] = a[0] / n if n else float("inf")
